@@ -126,8 +126,8 @@ theorem unescape_escape (v : Str) : unescapeDq (escapeDq v) = v := by
 
 /-! ### quotes -/
 
-theorem stripDq_wrap (s : Str) : stripDq? ('"' :: s ++ ['"']) = some s := by
-  simp [stripDq?, List.getLast?_concat]
+theorem stripDq_wrap (s : Str) : stripDq? ('"' :: (s ++ ['"'])) = some s := by
+  simp [stripDq?]
 
 theorem stripDq_none_of_head {c : Char} {t : Str} (h : c ≠ '"') : stripDq? (c :: t) = none := by
   unfold stripDq?
@@ -155,6 +155,240 @@ theorem unquote_quote_any (v : Str) (allow : Bool) :
           simp [List.all_cons] at h1; exact h1.2.1
         simp [unquoteHeaderValue, stripDq_none_of_head (isToken_ne_dq hc)]
     · simp only [h1, Bool.false_eq_true, if_false]
-      simp [unquoteHeaderValue, stripDq_wrap, unescape_escape]
+      simp only [unquoteHeaderValue, List.cons_append, stripDq_wrap, unescape_escape]
+
+/-! ### parse_http_list on dumped items -/
+
+theorem httpListGo_quoted (v rest p : Str) :
+    httpListGo false true (escapeDq v ++ rest) p = httpListGo false true rest (v.reverse ++ p) := by
+  induction v generalizing p with
+  | nil => simp [escapeDq_nil]
+  | cons c t ih =>
+    rw [escapeDq_cons]
+    by_cases h1 : c = '\\'
+    · subst h1
+      simp [escUnit, httpListGo, ih]
+    · by_cases h2 : c = '"'
+      · subst h2
+        simp [escUnit, httpListGo, ih]
+      · simp [escUnit, h1, h2, httpListGo, ih]
+
+theorem isToken_ne_comma {c : Char} (h : isToken c = true) : c ≠ ',' := by
+  have := isToken_notSpecial h
+  apply char_ne_of_toNat_ne
+  simp [notSpecialNat] at this
+  simp; omega
+
+theorem httpListGo_token (v rest p : Str) (hv : v.all isToken = true) :
+    httpListGo false false (v ++ rest) p = httpListGo false false rest (v.reverse ++ p) := by
+  induction v generalizing p with
+  | nil => simp
+  | cons c t ih =>
+    simp only [List.all_cons, Bool.and_eq_true] at hv
+    have h1 := isToken_ne_comma hv.1
+    have h2 := isToken_ne_dq hv.1
+    simp [httpListGo, h1, h2, ih _ hv.2]
+
+/-- the text `parse_http_list` accumulates for a dumped item -/
+def img (v : Str) : Str :=
+  if v.isEmpty then ['"', '"'] else if v.all isToken then v else '"' :: (v ++ ['"'])
+
+theorem httpListGo_item (v rest p : Str) :
+    httpListGo false false (quoteHeaderValue v ++ rest) p = httpListGo false false rest ((img v).reverse ++ p) := by
+  unfold quoteHeaderValue img
+  by_cases h0 : v.isEmpty = true
+  · simp [h0, httpListGo]
+  · simp only [h0, Bool.false_eq_true, if_false, Bool.true_and]
+    by_cases h1 : v.all isToken = true
+    · simp only [h1, if_true]
+      exact httpListGo_token v rest p h1
+    · simp only [h1, Bool.false_eq_true, if_false]
+      simp only [List.cons_append, List.append_assoc]
+      simp [httpListGo, httpListGo_quoted]
+
+theorem img_ne_nil (v : Str) : img v ≠ [] := by
+  unfold img
+  by_cases h0 : v.isEmpty = true
+  · simp [h0]
+  · by_cases h1 : v.all isToken = true
+    · simp [h0, h1]; intro h; simp [h] at h0
+    · simp [h0, h1]
+
+theorem httpListGo_dump (v : Str) (vs : List Str) (p : Str) :
+    httpListGo false false (join ", " ((v :: vs).map (quoteHeaderValue ·))) p
+      = (p.reverse ++ img v) :: vs.map (fun w => ' ' :: img w) := by
+  induction vs generalizing v p with
+  | nil =>
+    have := httpListGo_item v [] p
+    simp only [List.append_nil] at this
+    simp [join, List.intercalate_singleton, this, httpListGo, img_ne_nil]
+  | cons w ws ih =>
+    simp only [join, List.map_cons, List.intercalate_cons_cons] at ih ⊢
+    rw [List.append_assoc, httpListGo_item]
+    have e : ", ".toList = [',', ' '] := by decide
+    rw [e]
+    simp only [List.cons_append, List.nil_append, httpListGo]
+    simp
+    have := ih w [' ']
+    simp at this
+    exact this
+
+/-! ### strip -/
+
+/-- first and last character are not whitespace -/
+def Tight (x : Str) : Prop :=
+  (∀ c, x.head? = some c → Py.isSpace c = false) ∧ (∀ c, x.getLast? = some c → Py.isSpace c = false)
+
+theorem dropWhile_tight {x : Str} (h : Tight x) : x.dropWhile Py.isSpace = x := by
+  cases x with
+  | nil => rfl
+  | cons a t => simp [List.dropWhile_cons, h.1 a rfl]
+
+theorem rstrip_tight {x : Str} (h : Tight x) : Py.rstripBy Py.isSpace x = x := by
+  unfold Py.rstripBy
+  have : x.reverse.dropWhile Py.isSpace = x.reverse := by
+    cases hr : x.reverse with
+    | nil => rfl
+    | cons a t =>
+      have : x.getLast? = some a := by
+        rw [← List.head?_reverse, hr]; rfl
+      simp [List.dropWhile_cons, h.2 a this]
+  rw [this, List.reverse_reverse]
+
+theorem strip_tight {x : Str} (h : Tight x) : strip x = x := by
+  simp [strip, Py.strip, dropWhile_tight h, rstrip_tight h]
+
+theorem strip_space_tight {x : Str} (h : Tight x) : strip (' ' :: x) = x := by
+  have : (' ' :: x).dropWhile Py.isSpace = x := by
+    rw [List.dropWhile_cons]
+    simp [show Py.isSpace ' ' = true from by decide, dropWhile_tight h]
+  simp [strip, Py.strip, this, rstrip_tight h]
+
+theorem img_tight (v : Str) : Tight (img v) := by
+  unfold img
+  by_cases h0 : v.isEmpty = true
+  · simp only [h0, if_true]
+    constructor <;> intro c hc <;> simp at hc <;> subst hc <;> decide
+  · simp only [h0, Bool.false_eq_true, if_false]
+    by_cases h1 : v.all isToken = true
+    · simp only [h1, if_true]
+      rw [List.all_eq_true] at h1
+      constructor
+      · intro c hc
+        exact isToken_not_space (h1 c (List.mem_of_head? hc))
+      · intro c hc
+        exact isToken_not_space (h1 c (List.mem_of_getLast? hc))
+    · simp only [h1, Bool.false_eq_true, if_false]
+      constructor
+      · intro c hc; simp at hc; subst hc; decide
+      · intro c hc
+        have : ('"' :: (v ++ ['"'])).getLast? = some '"' := by
+          rw [← List.cons_append, List.getLast?_concat]
+        rw [this] at hc; simp at hc; subst hc; decide
+
+theorem unwrap_img (v : Str) : (stripDq? (img v)).getD (img v) = v := by
+  unfold img
+  by_cases h0 : v.isEmpty = true
+  · cases v with
+    | nil => simp [stripDq?]
+    | cons _ _ => simp at h0
+  · simp only [h0, Bool.false_eq_true, if_false]
+    by_cases h1 : v.all isToken = true
+    · simp only [h1, if_true]
+      cases v with
+      | nil => simp at h0
+      | cons c t =>
+        simp only [List.all_cons, Bool.and_eq_true] at h1
+        simp [stripDq_none_of_head (isToken_ne_dq h1.1)]
+    · simp only [h1, Bool.false_eq_true, if_false]
+      simp [stripDq_wrap]
+
+theorem parseList_dump_any (vs : List Str) : parseListHeader (dumpHeaderList vs) = vs := by
+  cases vs with
+  | nil => simp [parseListHeader, parseHttpList, dumpHeaderList, join, httpListGo]
+  | cons v ws =>
+    unfold parseListHeader parseHttpList dumpHeaderList
+    rw [httpListGo_dump v ws []]
+    simp only [List.reverse_nil, List.nil_append, List.map_cons, List.map_map]
+    rw [strip_tight (img_tight v), unwrap_img]
+    congr 1
+    rw [List.map_congr_left (g := id)]
+    · simp
+    · intro w _
+      simp only [Function.comp, id]
+      rw [strip_space_tight (img_tight w), unwrap_img]
+
+/-! ### generic items for the list scanner -/
+
+/-- scanning `w` outside quotes appends `im` to the current part and ends outside quotes -/
+def Scans (w im : Str) : Prop :=
+  ∀ rest p, httpListGo false false (w ++ rest) p = httpListGo false false rest (im.reverse ++ p)
+
+theorem Scans.append {w1 im1 w2 im2 : Str} (h1 : Scans w1 im1) (h2 : Scans w2 im2) :
+    Scans (w1 ++ w2) (im1 ++ im2) := by
+  intro rest p
+  rw [List.append_assoc, h1, h2]
+  simp
+
+theorem scans_token {v : Str} (hv : v.all isToken = true) : Scans v v :=
+  fun rest p => httpListGo_token v rest p hv
+
+theorem scans_quote (v : Str) (allow : Bool) :
+    Scans (quoteHeaderValue v allow) (if allow then img v else '"' :: (v ++ ['"'])) := by
+  intro rest p
+  cases allow with
+  | true => exact httpListGo_item v rest p
+  | false =>
+    unfold quoteHeaderValue
+    by_cases h0 : v.isEmpty = true
+    · cases v with
+      | nil => simp [httpListGo]
+      | cons _ _ => simp at h0
+    · simp only [h0, Bool.false_eq_true, if_false, Bool.false_and]
+      simp only [List.cons_append, List.append_assoc]
+      simp [httpListGo, httpListGo_quoted]
+
+theorem scans_eq : Scans ['='] ['='] := by
+  intro rest p; simp [httpListGo]
+
+theorem httpListGo_join (w im : Str) (ws : List (Str × Str)) (p : Str)
+    (h : Scans w im) (hne : im ≠ [])
+    (hs : ∀ x ∈ ws, Scans x.1 x.2 ∧ x.2 ≠ []) :
+    httpListGo false false (join ", " (w :: ws.map (·.1))) p
+      = (p.reverse ++ im) :: ws.map (fun x => ' ' :: x.2) := by
+  induction ws generalizing w im p with
+  | nil =>
+    have := h [] p
+    simp only [List.append_nil] at this
+    simp [join, List.intercalate_singleton, this, httpListGo, hne]
+  | cons x xs ih =>
+    simp only [join, List.map_cons, List.intercalate_cons_cons] at ih ⊢
+    rw [List.append_assoc, h]
+    have e : ", ".toList = [',', ' '] := by decide
+    rw [e]
+    simp only [List.cons_append, List.nil_append, httpListGo]
+    simp
+    have hx := hs x (by simp)
+    have := ih x.1 x.2 [' '] hx.1 hx.2 (fun y hy => hs y (by simp [hy]))
+    simp at this
+    exact this
+
+theorem parseHttpList_join (ws : List (Str × Str))
+    (hs : ∀ x ∈ ws, Scans x.1 x.2 ∧ Tight x.2 ∧ x.2 ≠ []) :
+    parseHttpList (join ", " (ws.map (·.1))) = ws.map (·.2) := by
+  cases ws with
+  | nil => simp [parseHttpList, join, httpListGo]
+  | cons x xs =>
+    unfold parseHttpList
+    have hx := hs x (by simp)
+    rw [List.map_cons, httpListGo_join x.1 x.2 xs [] hx.1 hx.2.2
+      (fun y hy => ⟨(hs y (by simp [hy])).1, (hs y (by simp [hy])).2.2⟩)]
+    simp only [List.reverse_nil, List.nil_append, List.map_cons, List.map_map]
+    rw [strip_tight hx.2.1]
+    congr 1
+    apply List.map_congr_left
+    intro y hy
+    simp only [Function.comp]
+    exact strip_space_tight (hs y (by simp [hy])).2.1
 
 end Wz.Http
